@@ -423,3 +423,28 @@ def c03_r7(ctx: Ctx, rule):
                      "the renamed-prefix memo is consulted for a prefix that may be registered in this scope",
                      "ex->U1 registered, a clashing ex->U2 is renamed ex_1 (memo ex->ex_1): the string 'ex:e1' now resolves to U2+e1, so names handed out earlier as ex:e1 change URI when printed and re-read")
     return res
+
+
+@rule("C03", "C03.R8", "URI compaction considers every namespace bound in the scope: the loop walks the manager's own table (default namespace included)", 1,
+      decides="a full URI in the default namespace, or under a renamed prefix, still resolves to the name the scope handed out")
+def c03_r8(ctx: Ctx, rule):
+    res = RuleResult()
+    q = NSM + ".valid_qualified_name"
+    fi = ctx.fn(q)
+    loops = [n for n in walk_function(fi.node) if isinstance(n, ast.For) and any(isinstance(c, ast.Call) and call_name(c) == "startswith" for c in ast.walk(n))]
+    if not loops:
+        raise AnalysisError("valid_qualified_name: URI compaction loop not found")
+    for l in loops:
+        it = norm(l.iter)
+        ok = it in ("self.values()", "self.items()", "list(self.values())", "self")
+        res.ob("compaction loop iterates %s: the whole prefix table: %s" % (it, ok))
+        if not ok:
+            res.fail(rule.id, "compaction-partial-table::%s" % it[:50], ctx.loc(q, l), "full URIs are compacted against %s only, not against every namespace bound in the manager (the default namespace lives under the key '')" % it[:60],
+                     "a container with a default namespace: get_record('<full URI of a record in it>') returns [] while records holds the record")
+    return res
+
+
+RULES.setdefault("C18", []).append(Rule("C18.R7", "URI compaction walks the whole prefix table (shared with C03.R8)", 1, c03_r8, "F-PATH",
+                                        "lookup by full URI reaches the same index key as lookup by qualified name"))
+RULES.setdefault("C09", []).append(Rule("C09.R6", "re-homing preserves the URI (shared with C03.R3)", 5, c03_r3, "F-OWN",
+                                        "records re-created in the target of flattened/update/add_bundle keep their URIs"))
